@@ -113,20 +113,26 @@ TErrSuppressed == Have("ErrSuppressed") /\ aw[Ev.p].pend = Ev.cls /\ SuppressErr
 TProvRunEnd == Have("ProvRunEnd") /\ ProvEnd(Ev.p, Ev.cls) /\ Consume /\ UNCHANGED aux
 TAggRunEnd == Have("AggRunEnd") /\ AggEnd(Ev.p, Ev.cls) /\ Consume /\ UNCHANGED aux
 
-Create(p, i, o) == IF i = 0 THEN StartFirstCreate(p, o) ELSE InstCreate(p, i, o)
+Create(p, i, o) == IF i = 0 THEN StartFirstCreate(p, o) ELSE IF SplitCreate THEN InstBind(p, i, o) ELSE InstCreate(p, i, o)
+\* a failing factory call: of the first instance (synchronous), of the only asynchronous one (MaxN = 2), or - with
+\* racing asynchronous creations - of a silent GunCall that has already taken that call index
+FailedCall(p, pos, calls, n) ==
+  IF st[p].pc = "create" THEN calls = n /\ StartFirstCreate(p, pos)
+  ELSE IF SplitCreate THEN calls > n /\ UNCHANGED vars
+  ELSE calls = n /\ \E i \in Insts \ {0} : InstCreate(p, i, pos)
 
 TBind == Have("Bind") /\ Create(Ev.p, Ev.n, Ev.cls) /\ Consume /\ UNCHANGED aux
 
 TNewGunFail ==
   /\ Have("NewGunFail")
   /\ IF Ev.n = 0 THEN PP(Ev.p).gunFail = 0 /\ UNCHANGED vars      \* warm-up gun: PoolWarm (silent) fails
-     ELSE gunCalls[Ev.p] = Ev.n /\ \E i \in Insts : Create(Ev.p, i, "newgun")
+     ELSE PP(Ev.p).gunFail = Ev.n /\ FailedCall(Ev.p, "newgun", gunCalls[Ev.p], Ev.n)
   /\ Consume /\ UNCHANGED aux
 
 TNewSchedFail ==
   /\ Have("NewSchedFail")
   /\ IF PP(Ev.p).shared THEN Ev.n = 0 /\ PP(Ev.p).schedFail = 0 /\ UNCHANGED vars   \* runAsync (silent) fails
-     ELSE schedCalls[Ev.p] = Ev.n /\ \E i \in Insts : Create(Ev.p, i, "sched")
+     ELSE PP(Ev.p).schedFail = Ev.n /\ FailedCall(Ev.p, "sched", schedCalls[Ev.p], Ev.n)
   /\ Consume /\ UNCHANGED aux
 
 TShoot == Have("Shoot") /\ ~PP(Ev.p).long /\ Panics(Ev.p, Ev.n) = Ev.flag /\ InstShoot(Ev.p, Ev.n) /\ Consume /\ UNCHANGED aux
@@ -148,7 +154,7 @@ TSilent ==
           \/ PoolStep(p) \/ ProvCloseQ(p)
           \/ StartFirstNone(p) \/ StartFirstGo(p) \/ StartLoop(p) \/ StartRet(p)
           \/ CheckAllNot(p) \/ CtxProp(p) \/ AwaitExit(p)
-          \/ \E i \in Insts : (~PP(p).long /\ InstSilent(p, i)) \/ LongSilent(p, i)
+          \/ \E i \in Insts : (~PP(p).long /\ InstSilent(p, i)) \/ LongSilent(p, i) \/ GunCall(p, i)
                               \/ (~PP(p).closable /\ InstFinish(p, i))
   /\ UNCHANGED <<l, run, aux>>
 
